@@ -277,6 +277,41 @@ func reservedLoopCases() []scopeCase {
 			scopeCase{[]model.Stmt{model.For{Init: &model.Assign{Name: "loop", E: literalOf(v)}, Body: []model.Stmt{model.Text{S: "[x]"}, model.Break{}}}}, nil},
 		)
 	}
+	// loops written without an init clause are blocks too
+	n := model.Var{Name: "n"}
+	lit := func(i int64) model.Expr { return literalOf(model.Int(i)) }
+	readN := []model.Stmt{model.Text{S: "<"}, model.Print{E: n}, model.Text{S: ">"}}
+	out = append(out,
+		scopeCase{append([]model.Stmt{model.Assign{Name: "n", E: lit(0)}, model.For{Cond: model.Binary{Op: "<", L: n, R: lit(3)}, Post: model.Assign{Name: "n", E: model.Binary{Op: "+", L: n, R: lit(1)}}, Body: []model.Stmt{model.Print{E: n}}}, model.Text{S: "|"}}, readN...), nil},
+		scopeCase{append([]model.Stmt{model.For{Body: []model.Stmt{model.Assign{Name: "n", E: lit(1)}, model.Text{S: "x"}, model.Break{}}}, model.Text{S: "|"}}, readN...), nil},
+		scopeCase{append([]model.Stmt{model.For{Body: []model.Stmt{model.Assign{Name: "n", E: lit(1)}, model.Text{S: "x"}, model.Break{}}}, model.Text{S: "|"}}, readN...), map[string]model.Value{"n": model.Int(7)}},
+		scopeCase{append([]model.Stmt{model.For{Cond: model.Binary{Op: "<", L: n, R: lit(9)}, Body: []model.Stmt{model.Assign{Name: "n", E: model.Binary{Op: "+", L: n, R: lit(1)}}, model.Print{E: n}}}, model.Text{S: "|"}}, readN...), map[string]model.Value{"n": model.Int(7)}},
+		scopeCase{append([]model.Stmt{model.For{Cond: model.Binary{Op: "<", L: n, R: lit(8)}, Body: []model.Stmt{model.Assign{Name: "n", E: model.StrLit{S: "s"}}, model.Break{}}}, model.Text{S: "|"}}, readN...), map[string]model.Value{"n": model.Int(7)}},
+		scopeCase{append([]model.Stmt{model.Assign{Name: "n", E: lit(0)}, model.For{InitE: n, Cond: model.Binary{Op: "<", L: n, R: lit(2)}, Post: model.Assign{Name: "n", E: model.Binary{Op: "+", L: n, R: lit(1)}}, Body: []model.Stmt{model.Print{E: n}}, Else: []model.Stmt{model.Text{S: " none"}}}, model.Text{S: "|"}}, readN...), nil},
+	)
+	// a value bound to two names stays two values: operators and built-ins on one never change the other
+	f, g := model.Var{Name: "f"}, model.Var{Name: "g"}
+	rd := func(names ...string) []model.Stmt {
+		var st []model.Stmt
+		for _, nm := range names {
+			st = append(st, model.Text{S: "<" + nm + ":"}, model.Print{E: model.Var{Name: nm}}, model.Text{S: ">"})
+		}
+		return st
+	}
+	dec := func(e model.Expr) model.Expr { return model.Postfix{Op: "--", X: e} }
+	inc := func(e model.Expr) model.Expr { return model.Postfix{Op: "++", X: e} }
+	for _, start := range []model.Value{model.Float(2.5), model.Float(4.0), model.Float(0.5), model.Int(5)} {
+		sv := literalOf(start)
+		out = append(out,
+			scopeCase{append([]model.Stmt{model.Assign{Name: "f", E: sv}, model.Assign{Name: "g", E: f}, model.Print{E: dec(g)}, model.Print{E: inc(g)}}, rd("f", "g")...), nil},
+			scopeCase{append([]model.Stmt{model.Assign{Name: "f", E: sv}, model.If{Conds: []model.Expr{lit(1)}, Bodies: [][]model.Stmt{{model.Assign{Name: "f", E: dec(f)}, model.Print{E: f}}}}}, rd("f")...), nil},
+			scopeCase{append([]model.Stmt{model.Print{E: dec(f)}, model.Text{S: "|"}, model.Print{E: dec(dec(f))}}, rd("f")...), map[string]model.Value{"f": start}},
+			scopeCase{append([]model.Stmt{model.Assign{Name: "a", E: model.ArrLit{Elems: []model.Expr{sv, sv}}}, model.Each{Var: "v", Arr: model.Var{Name: "a"}, Body: []model.Stmt{model.Assign{Name: "v", E: dec(model.Var{Name: "v"})}, model.Print{E: model.Var{Name: "v"}}, model.Text{S: ","}}}}, rd("a")...), nil},
+			scopeCase{append([]model.Stmt{model.Each{Var: "v", Arr: model.Var{Name: "da"}, Body: []model.Stmt{model.Print{E: dec(model.Var{Name: "v"})}, model.Text{S: ","}}}}, rd("da")...), map[string]model.Value{"da": model.Arr(start, start)}},
+			scopeCase{append([]model.Stmt{model.Assign{Name: "f", E: sv}, model.For{Init: &model.Assign{Name: "g", E: f}, Cond: model.Binary{Op: ">", L: g, R: literalOf(zeroOf(start))}, Post: model.Print{E: dec(g)}, Body: []model.Stmt{model.Text{S: "."}}}}, rd("f")...), nil},
+			scopeCase{append([]model.Stmt{model.Assign{Name: "o", E: model.ObjLit{Keys: []string{"k"}, Vals: []model.Expr{sv}}}, model.Assign{Name: "g", E: model.Dot{X: model.Var{Name: "o"}, Name: "k"}}, model.Print{E: dec(g)}, model.Text{S: "|"}, model.Print{E: model.Dot{X: model.Var{Name: "o"}, Name: "k"}}}, rd("g")...), nil},
+		)
+	}
 	// loop is only visible inside @each; it is restored for the outer loop and gone afterwards
 	out = append(out,
 		scopeCase{[]model.Stmt{model.Text{S: "<"}, model.Print{E: model.Dot{X: lp, Name: "index"}}, model.Text{S: ">"}}, nil},
@@ -368,6 +403,17 @@ func componentScopeCases() []compScopeCase {
 				case 3:
 					use.Args = &model.ObjLit{Keys: []string{"arg", "x"}, Vals: []model.Expr{model.Lit{V: model.Int(7)}, model.Lit{V: model.Int(50)}}}
 				}
+				// the use may pass a slot whose body assigns: a new name, the caller's name (same type), the caller's name retyped
+				if (argForm+inside+where)%3 == 0 {
+					comp = append(comp, model.Text{S: "{"}, model.SlotRef{Name: ""}, model.Text{S: "}"})
+					slotBodies := [][]model.Stmt{
+						{model.Assign{Name: "sfresh", E: model.Lit{V: model.Int(2)}}, model.Print{E: v("sfresh")}},
+						{model.Assign{Name: "x", E: model.Lit{V: model.Int(77)}}, model.Print{E: v("x")}},
+						{model.Assign{Name: "x", E: model.StrLit{S: "retyped-in-slot"}}, model.Text{S: "never"}},
+						{model.Assign{Name: "loop", E: model.Lit{V: model.Int(1)}}, model.Text{S: "never"}},
+					}
+					use.Slots = []model.SlotBody{{Name: "", Body: slotBodies[(argForm+inside*2+where)%len(slotBodies)]}}
+				}
 				page := []model.Stmt{model.Assign{Name: "x", E: model.Lit{V: model.Int(10)}}}
 				switch where {
 				case 0:
@@ -391,4 +437,11 @@ func componentScopeCases() []compScopeCase {
 		}
 	}
 	return out
+}
+
+func zeroOf(v model.Value) model.Value {
+	if v.K == model.KFloat {
+		return model.Float(0)
+	}
+	return model.Int(0)
 }
